@@ -1,5 +1,5 @@
 # fam_req.py — REQ family of C07 (weight conservation, exact extremes, coherent answers) and C08 (rank unbiased over coins).
-# Harness harness/drv_req.cpp (req_sketch<int64_t>, <double>, <std::string, std::greater>) vs. model coq/ReqDefs.v
+# Harness harness/drv_req.cpp (req_sketch<int64_t>, <double>, <std::string, std::greater>, <int64_t, DirCmp(true)> stateful comparator) vs. model coq/ReqDefs.v
 # (extract/Extract_req.v), fresh coins routed through the DATASKETCHES_VERIF hook and replayed by the model.
 #
 # Mutations confirmed caught / harmless rewrites tolerated (scratch worktree, VERIF_REPO): see the list at the end of this file.
@@ -11,10 +11,11 @@ COQ_PROPS_C07 = ['Properties_C07_req']
 COQ_PROPS_C08 = ['Properties_C08_req']
 
 RULE_C07 = ('operation scripts over up to 4 registers holding req_sketch<int64_t>, req_sketch<double> (integer values, NaN updates and NaN split points) or '
-            'req_sketch<string, greater> (order-isomorphic encoding), both accuracy modes (HRA/LRA; mixed-mode merges must be refused): k in {4,6,8,12,20,50} plus odd, '
+            'req_sketch<string, greater> (order-isomorphic encoding) or req_sketch<int64_t, DirCmp> with a stateful comparator instance (descending; items stored negated), both accuracy modes (HRA/LRA; mixed-mode merges must be refused): k in {4,6,8,12,20,50} plus odd, '
             'tiny and truncated k (0..3, 5, 7, 255, 256, 300, 65535; the constructor rounds down to even, clamps to 4 and truncates to 8 bits); streams sorted/reversed/'
             'random/constant/heavy duplicates of 0..~2500 items (several section doublings of level 0); merges of equal and unequal k, exact/estimating/empty '
-            'operands, lvalue and rvalue, merge chains and trees; after the history every register is observed (n, min, max, num_retained, iterator listing; an EMPTY '
+            'operands, lvalue and rvalue, merge chains and trees; after the history every register is observed (n, min, max, num_retained, iterator listing by ++it, it++, *it++ '
+            'and range-for, a deviating walk being the one reported; an EMPTY '
             'sketch is iterated in every case) and queried: rank grid (get_rank sums the compactors), dyadic quantile grid incl. 0 and 1 and out-of-range ranks, '
             'CDF/PMF with valid, unsorted, duplicate and NaN split points, sorted-view listing (CDF and rank go through different code and must agree); queries are '
             'also interleaved with updates (they sort level 0 in place); the float32 section-size schedule of the model is compared with the machine arithmetic '
@@ -230,7 +231,7 @@ def published_error_cases(rng, thorough):
         for k in (4, 6, 12):
             for n in (6 * k + 1, 13 * k, 40 * k + 3):
                 for order in ('sorted', 'reversed', 'random'):
-                    bi += 1; kind = bi % 3
+                    bi += 1; kind = (0, 1, 2, 4)[bi % 4]
                     xs = list(range(n))
                     if order == 'reversed': xs.reverse()
                     elif order == 'random': rng.shuffle(xs)
@@ -247,7 +248,7 @@ def gen_c07(rng, tier):
     cases = []
     # the confirmed defect F3, verbatim: iterate an empty sketch (both modes, all item types)
     ops = []
-    for r, (kind, h) in enumerate([(0, 0), (0, 1), (1, 1), (2, 0)]):
+    for r, (kind, h) in enumerate([(0, 0), (0, 1), (1, 1), (2, 0), (4, 1)]):
         ops += [[1, r, kind, 12, h], [5, r]]
     cases.append(dict(id='req_f3', ops=ops, tags=['empty-iterator']))
     # the float32 section-size schedule, every section size the constructor can produce and a few larger ones
@@ -264,7 +265,7 @@ def gen_c07(rng, tier):
         for k in (4, 6):
             for na in (0, 1, 2, k - 1, k, k + 1):
                 for osorted in (0, 1):
-                    kind = di % 3; di += 1
+                    kind = (0, 1, 2, 4)[di % 4]; di += 1
                     av = [100 + 20 * j for j in range(na)]                      # receiver: 100, 120, ...
                     bv = [130, 10, 101, 99, 500, 100][:rng.choice([2, 4, 6])]   # operand: unsorted, on both sides, with a tie
                     ops = [[99, 1000 + di], [1, 0, kind, k, h], [1, 1, kind, k, h]] + [[2, 0, x] for x in av] + [[2, 1, x] for x in bv]
@@ -277,7 +278,7 @@ def gen_c07(rng, tier):
                     cases.append(dict(id='reqsmall%d' % di, ops=ops, tags=['merge', 'merge-small-receiver', 'recv=%d' % na]))
         for k in (4, 6, 8, 10):
             for shape in ('est<-est', 'tiny<-est', 'est<-tiny', 'empty<-est'):
-                kind = di % 3; di += 1
+                kind = (0, 1, 2, 4)[di % 4]; di += 1
                 cap = 6 * k
                 ev = [2 * ((7 * j) % cap) for j in range(cap)]                  # even values, scrambled: exactly one compaction
                 od = [2 * ((5 * j) % cap) + 1 for j in range(cap)]              # odd values interleaving with them
@@ -293,7 +294,7 @@ def gen_c07(rng, tier):
     # merges after which num_retained == max_nom_size EXACTLY (the boundary of "if (num_retained_ >= max_nom_size_) compress()");
     # a sketch left uncompressed there never compresses again, because update() tests equality
     for ci in range(6 if not thorough else 40):
-        k = rng.choice([4, 4, 6, 8, 12]); h = rng.randrange(2); kind = rng.choice([0, 1, 2])
+        k = rng.choice([4, 4, 6, 8, 12]); h = rng.randrange(2); kind = rng.choice([0, 1, 2, 4])
         cap = 6 * eff_k(k)
         for attempt in range(50):
             a = Sz(k, h); b = Sz(k, h)
@@ -315,7 +316,7 @@ def gen_c07(rng, tier):
         cases.append(dict(id='reqexact%d' % ci, ops=ops, tags=['merge', 'merge-exact-capacity']))
     for ci in range(ncases):
         ops = []; tags = set()
-        kind = rng.choice([0, 0, 1, 1, 2])
+        kind = rng.choice([0, 0, 1, 1, 2, 4, 4])
         nreg = rng.choice([1, 2, 2, 3, 4])
         samek = rng.random() < 0.5
         samemode = rng.random() < 0.9
@@ -329,7 +330,7 @@ def gen_c07(rng, tier):
             if rng.random() < 0.04:
                 ops.append([1, r, kind, rng.choice([65536, 1 << 20, -1]), h0])        # refused by the harness (not a uint16)
             h = h0 if samemode else rng.randrange(2)
-            kk = kind if rng.random() > 0.04 else (kind + 1) % 3                        # rarely a different item type (merge refused)
+            kk = kind if rng.random() > 0.04 else rng.choice([x for x in (0, 1, 2, 4) if x != kind])                        # rarely a different item type (merge refused)
             ops.append([1, r, kk, k, h]); sims[r] = Sz(k, h); vals[r] = []; sims[r].kind = kk
             if rng.random() < 0.3:
                 ops.append([5, r])                                                      # iterate the empty sketch
@@ -395,6 +396,7 @@ def gen_c07(rng, tier):
         if any(s.hra for s in sims.values()): tags.add('hra')
         if any(not s.hra for s in sims.values()): tags.add('lra')
         if kind == 2: tags.add('string-greater')
+        if kind == 4: tags.add('stateful-comparator')
         if kind == 1: tags.add('double')
         if not samek and merges: tags.add('unequal-k')
         if not (comp or merges):
@@ -654,7 +656,7 @@ def history(rng, max_m, want_unset):
         nreg = rng.choice([1, 1, 2, 2, 3])
         if want_unset:
             nreg = rng.choice([2, 3])
-        kind = rng.choice([0, 0, 0, 1, 2])
+        kind = rng.choice([0, 0, 1, 2, 4, 4])
         h = rng.randrange(2)
         ks = [rng.choice([4, 4, 6]) for _ in range(nreg)]
         ops = [[1, r, kind, ks[r], h] for r in range(nreg)]
@@ -841,6 +843,9 @@ MANIFEST_C08 = dict(
 #   S1  independent seed C07-2: req_compactor::merge guards the final std::inplace_merge with num_items_ > 1 instead of > 0
 #       (first MISSED: no case merged into a compactor holding exactly one item; CAUGHT since the reqsmall*/reqtop* cases,
 #       sig req_exact_quantile / req_exact_rank / view mismatch)
+#   S3  f0e5fa1 reverted (req_compactor::merge uses C() instead of the stored comparator): VIOLATION through kind 4 (stateful DirCmp):
+#       sorted view not ordered / quantile not monotone.  S4  88d3abb reverted (operator++(int) returns a reference to a local):
+#       VIOLATION (the it++ / *it++ walks of the observe op are stopped by the sanitizer).
 # Harmless rewrites confirmed NOT reported (exit 0): H1 append() growth factor 2*capacity+7; H2 compress() recomputes
 #   max_nom_size_ with update_max_nom_size() instead of adding the delta; H3 std::stable_sort instead of std::sort;
 #   H4 update(): ++n_ before ++num_retained_ and the comparison written the other way round; H5 ensure_space() grows more.
